@@ -44,7 +44,7 @@ class TableEcu:
                     kind = rng.choice(NEG_MEANINGFUL)
                 d[sid] = (minlen, kind, rng.random() < 0.15)  # third: silent on the first probe
             self.svc[s] = d
-        self.f186 = rng.choice(["ok", "ok", "ok", "nrc31", "nrc11", "silent", "stuck1"])
+        self.f186 = rng.choice(["ok", "ok", "ok", "nrc31", "nrc11", "nrc7f", "nrc12", "nrc7e", "silent", "stuck1"])
         self.ids = {s: {(rng.randrange(0, 48), sf): rng.choice(["pos", "pos", 0x33, 0x22, 0x31, 0x12, 0x11, None, "illegal"])
                         for sf in (0, 1, 2, 3) for _ in range(rng.randint(0, 14))} for s in self.sessions}
         self.session = 1
@@ -79,8 +79,8 @@ class TableEcu:
                 return bytes([0x62, 0xF1, 0x86, s])
             if self.f186 == "stuck1":
                 return bytes([0x62, 0xF1, 0x86, 1])
-            if self.f186 == "nrc31":
-                return bytes([0x7F, 0x22, 0x31])
+            if self.f186 in ("nrc31", "nrc7f", "nrc12", "nrc7e"):
+                return bytes([0x7F, 0x22, int(self.f186[3:], 16)])
             if self.f186 == "silent":
                 return None
         if pdu == b"\x22\xf1\x86" and self.f186 == "nrc11":
@@ -247,6 +247,9 @@ def run(ctx):
         # --- spec verdict on the ground truth (conformant ECUs, run completed) ---
         if not wild and r["outcome"] in ("exit0", "exit1"):
             _svc_spec(ctx, ecu, sessions, skip, check, rid, r, head)
+        elif not wild:
+            ctx.disagree("svc:scan-died:" + r["outcome"].split()[-1], f"service scan ended with {r['outcome']} on a conformant ECU (session read mode {ecu.f186}); nothing is reported",
+                         {"cfg": head, "f186": ecu.f186}, impl=r["outcome"], spec_violated=True, site="ServicesScanner.main / ECU.check_and_set_session")
         if i < 2:
             ctx.sample({"case": head, "ecu_sessions": ecu.sessions, "result": sc.result, "outcome": r["outcome"],
                         "exchanges": len(r["trace"])})
@@ -319,6 +322,9 @@ def run(ctx):
         # spec verdict: positives counted == positive replies the ECU really gave to the identifier probes
         if r["outcome"] in ("exit0", "exit1"):
             _id_spec(ctx, service, payload, r, counts, head)
+        elif not wild:
+            ctx.disagree("id:scan-died:" + r["outcome"].split()[-1], f"identifier scan ended with {r['outcome']} on a conformant ECU (session read mode {ecu.f186}); nothing is counted",
+                         {"cfg": head, "f186": ecu.f186}, impl=r["outcome"], spec_violated=True, site="ScanIdentifiers.main / ECU.check_and_set_session")
         if i < 2:
             ctx.sample({"case": head, "counts": counts, "outcome": r["outcome"], "exchanges": len(r["trace"])})
 
